@@ -86,7 +86,8 @@ class Report(object):
 
         # floors: a rule matching fewer instances than confirmed by hand is broken
         for r in self.rules:
-            if len(r.instances) < r.floor:
+            # (a rule that already reports a violation has given its verdict: a vanished construct is then the finding, not a broken analysis)
+            if len(r.instances) < r.floor and not any(i["verdict"] == "violated" for i in r.instances):
                 raise AnalysisBroken("rule %s matched %d instances, floor is %d (anchor moved?)"
                                      % (r.id, len(r.instances), r.floor))
 
